@@ -186,7 +186,14 @@ func verifC01Session(m *mon.M, i int, big bool) {
 					vm.Type = 9
 					vm.Payload = r.Bytes(1<<24 - 1)
 				}
-				if err := d.w.WriteMessage(verifToLib(vm)); err != nil {
+				lm := verifToLib(vm)
+				if r.Chance(1, 5) && vm.StreamID <= 0x7fffffff {
+					// the public constructor: stream id set through NewStreamMessage, its fixed chunk stream
+					lm = NewStreamMessage(int(vm.StreamID))
+					lm.MessageType, lm.Timestamp, lm.Payload = MessageType(vm.Type), vm.Timestamp, vm.Payload
+					m.Count("messages_built_with_NewStreamMessage", 1)
+				}
+				if err := d.w.WriteMessage(lm); err != nil {
 					m.Violationf("c01:write-error", rep, "WriteMessage(%v): %v", vm, err)
 					return
 				}
